@@ -83,7 +83,6 @@ FLOORS = {
         "TB1": 257,
         "TB2": 64,
         "TB3": 256,
-        "TB4": 15,
         "TB5": 2,
         "TB6": 1,
         "TB7": 1
